@@ -211,6 +211,13 @@ def run(prog, rep):
         rep.floor("PROV-9", len(dirpos.get("run_conversion", [])), 1, "output directory parameters of run_conversion in %s" % m)
 
     # ---------------------------------------------------------------- SINK-1
+    # every convertible file gets its output: the version converter's parser (which all three tools reach) takes the encoding a file declares
+    rep.rule("PARSE-3", "the lxml parser of VersionConverter._parse_xml is built without `encoding` and without `recover`: an explicit encoding "
+                        "overrides the one a source declares (valid legacy files in ISO-8859-1 / UTF-16 are reported unconvertible and get no "
+                        "output), recover turns a broken file into a partial output instead of a reported skip")
+    from .c16 import xml_parser_options
+    xml_parser_options(prog, rep, "PARSE-3", ("encoding", "recover"), module="odml.tools.converters.version_converter")
+
     rep.rule("SINK-1", "no call of %s anywhere in the package; every write-mode open reachable from the tools' main() is one of the "
                        "enumerated writers (VersionConverter.write_to_file, ODMLWriter/XMLWriter/RDFWriter.write_file, the terminology "
                        "cache)" % (DESTRUCTIVE,))
@@ -256,7 +263,10 @@ def run(prog, rep):
     g = build_cfg(cd)
     implicit = [n for n in g.nodes if n.kind == "stmt" and isinstance(n.ast, ast.Assign) and unparse(n.ast.targets[0]) == outd
                 and ("%s is None" % outd, True) in [(t0, p0) for t0, p0, _ in atoms_at(g, n)]]
-    rep.check(len(implicit) == 1 and ctext(implicit[0].ast.value, implicit[0]) == want, "FC-1", "implicit output directory differs from the input directory", "ok",
+    def as_dir(t):
+        # os.path.join(a, b, '') names the directory os.path.join(a, b)
+        return t[:-len(", '')")] + ")" if t.startswith("os.path.join(") and t.endswith(", '')") and t.count(",") >= 2 else t
+    rep.check(len(implicit) == 1 and as_dir(ctext(implicit[0].ast.value, implicit[0])) == want, "FC-1", "implicit output directory differs from the input directory", "ok",
               "the implicit output directory is no longer <parent>/<input dir name>_<format>: %s" % [ctext(n.ast.value, n) for n in implicit], cd.where,
               witness="outputs written into the input directory")
     effs = effect_calls(prog, cd, lambda c: call_name(c).split(".")[-1] == "_convert_file" and len(c.args) >= 2)
@@ -273,6 +283,29 @@ def run(prog, rep):
         ok = ok and a0.startswith("os.path.join(") and ind in n0 and outd not in n0 and outd in n1
     rep.check(ok, "FC-1", "convert_dir passes (input path, output path) pairs", "ok",
               "_convert_file is not called with (path in input dir, path in output dir): %s" % shown, cd.where)
+    # the mirrored sub-directory: when it is computed by re.sub, the replacement is the output directory as it is - re.escape() is for patterns,
+    # in a replacement the backslashes it inserts before '-', '.', ' ' ... stay in the result and name another directory
+    from ..dataflow import private_closure
+    for h in private_closure(cd):
+        hx = Expander(h, inline=prog)
+        for c in calls_in(h.node):
+            if _cn(c, h).startswith("re.") and _cn(c, h)[3:] in ("sub", "subn", "match", "search", "fullmatch", "findall", "split", "compile") and c.args:
+                # a path is no regular expression: a directory name with '+', '(', '[' ... does not match itself (or raises re.error); the
+                # mapped output directory is then the input directory and the converted file replaces its source
+                pat = hx.expand(c.args[0])
+                raw = [y.id for y in ast.walk(pat) if isinstance(y, ast.Name) and y.id in h.params]
+                escd = [y2.id for y in ast.walk(pat) if isinstance(y, ast.Call) and _cn(y, h) == "re.escape" for y2 in ast.walk(y) if isinstance(y2, ast.Name)]
+                unesc = sorted(set(raw) - set(escd))
+                rep.check(not unesc, "FC-1", "%s: no path is used as a regular expression" % h.short, "ok",
+                          "%s uses %s as (part of) the pattern of %s: a directory name with a character that is special in regular expressions "
+                          "does not match itself, the mirrored output directory is then the input directory itself" % (h.short, unesc, _cn(c, h)),
+                          where(h, c), witness="convert_dir('/data/set+1', out, True, 'v1_1'): every file below /data/set+1 is overwritten by its conversion")
+            if _cn(c, h) in ("re.sub", "re.subn") and len(c.args) >= 2:
+                esc = [y for y in ast.walk(hx.expand(c.args[1])) if isinstance(y, ast.Call) and _cn(y, h) == "re.escape"]
+                rep.check(not esc, "FC-1", "%s: the replacement text of re.sub is not escaped" % h.short, "ok",
+                          "%s passes re.escape(...) as replacement of re.sub: an output directory with '-', '.', ' ' in its path is mapped to a "
+                          "different directory (with back slashes in its name)" % h.short, where(h, c),
+                          witness="convert_dir(in, 'out.v2', True, 'v1_1') writes into 'out\\.v2'; the implicit '<in>_json-ld' likewise")
     coff = 1 if cf.has_self else 0            # classmethod / method / module function
     inp, outp = cf.params[coff], cf.params[coff + 1]
     fx = Expander(cf)
